@@ -10,16 +10,27 @@ CONFIG = dict(
           "section and every byte outside all sections zero (C06_to_view_wellformed); every slice that succeeds on the file view succeeds on the view over the converted "
           "buffer, is at least as long and agrees on the stored-and-mapped bytes, and is a full prefix when the raw tail beyond VirtualSize is zero padding "
           "(C06_prefix_simulation); to_file(to_view F) reproduces the headers and every section's stored-and-mapped bytes at their file offsets when raw ranges are disjoint, "
-          "behind the headers and the file extent does not exceed SizeOfImage (C06_roundtrip). Partial: 'every directory query gives equal results on both' is proved only "
-          "as far as the prefix simulation of slices plus monotonicity of the C-string reader (C06_c_str_monotone, C06_c_str_simulation); the directory parsers are not modelled "
-          "here - section bytes and data-directory slices are compared by correspondence only; Rich header and checksum not covered. Two known classes: stored_beyond_size_of_image (F33), raw_tail_not_mapped (F37).",
+          "behind the headers and the file extent does not exceed SizeOfImage (C06_roundtrip). "
+          "Second layer (Proofs/ConvertSimProofs.v), direction file => view, for the file view vf of F and the mapped view vv of to_view F with the same decoded header fields and ImageBase, "
+          "buffers congruent modulo the alignment of the read: slice and read of any alignment are simulated (C06_slice_simulation); every typed read of both families (derva_*/deref_*: rd, rd_copy, "
+          "rd_slice, rd_slice_f/_s, rd_c_str) that succeeds on vf succeeds on vv with the same length at the RVA read and equal bytes on min(length, agree_len) - agree_len reaches the end of min(VS,SRD), "
+          "and the end of the raw data when the raw tail is zero; for the sentinel readers under the decidable proviso inside_agree (C06_rd_*_simulation); outside the known class raw_tail_not_mapped no "
+          "proviso is left (C06_rd_equal .. C06_rd_c_str_equal). From that, outside F37: the export tables, names and lookups by ordinal and by name are EQUAL (C06_exports_equal, C06_export_names_equal, "
+          "C06_get_export_ordinal_equal, C06_get_export_name_equal); import descriptors, dll names, thunk arrays, import entries, IAT (C06_imports_equal, C06_pe_imports_equal, C06_dll_name_equal, "
+          "C06_thunks_equal, C06_import_from_va_equal, C06_iat_equal); base relocation bytes, blocks and pairs (C06_relocs_equal); exception table (C06_exception_equal); debug directory table "
+          "(C06_debug_equal); TLS and load config directories, their pointer fields and what those point to (C06_tls_equal, C06_load_config_equal); the resource section (C06_resources_section_equal). "
+          "When the file's headers lie inside SizeOfHeaders (headers_within, decidable; validate_headers only bounds them by the buffer) PeView::from_bytes accepts the converted buffer and decodes the same "
+          "e_lfanew, SizeOfHeaders, SizeOfImage, ImageBase, section table and data directory (C06_headers_equal) and the Rich structure, its key, records and checksum are identical (C06_rich_equal). "
+          "Not equal, by theorem: the security directory (a mapped view has none, C06_security_view_unmapped) and Headers::check_sum (C06_check_sum_not_preserved). "
+          "Partial: the converse direction (view => file) is false in general and not characterised; the resource tree walkers, the debug entry payloads, export name_linear/iterators and unwind_info/function_bytes "
+          "are covered by correspondence only. Two known classes: stored_beyond_size_of_image (F33), raw_tail_not_mapped (F37).",
     note="Trusted: Coq kernel, extraction and glue; Spec/ConvertSpec.v as the reading of the property (last-writer-wins rule, wf_sections, the two classes); the "
          "harness's own header writer supplies the section table the oracle uses, the model decodes its own from the bytes (Model/Headers.v). Allocation failure of "
          "vec![0; SizeOfImage] is outside the model (cap 1 MiB in generated cases). to_file is modelled and checked on PeView::from_bytes(to_view F) and on arbitrary "
          "tables at list level; PeView::module is not exercised.",
     bin="convert", driver="convert_driver", model_ml="convert_model", driver_includes=["image.ml"], extract=["Convert"], shrink_fields=["q"],
     quick_cases=1600, thorough_cases=120000, case_seconds=10,
-    correspondence="Model/Convert.v {pe_to_view, pe_to_file} (+ Mapping.slice_file, Views.slice_section, rd_c_str, get_section_bytes, Headers.data_dir on both buffers) vs pelite pe32/pe64 PeFile::to_view, PeView::from_bytes + to_file, Pe::{slice, derva_c_str, get_section_bytes, data_directory}",
+    correspondence="Model/Convert.v {pe_to_view, pe_to_file} (+ Mapping.slice_file, Views.slice_section, rd_c_str, get_section_bytes, Headers.data_dir on both buffers; Exports.view_by, Imports.{imports, descs, dll_name, desc_iat, thunk_values}, ConvertSimSpec.relocs_try_from on the file view and on the mapped view) vs pelite pe32/pe64 PeFile::to_view, PeView::from_bytes + to_file, Pe::{slice, derva_c_str, get_section_bytes, data_directory, exports().by(), imports() with dll_name/iat per descriptor, base_relocs()} on PeFile(F) and PeView(to_view F)",
     rule="70% well-formed images from the harness's own writer: 1..96 sections (1, 2-8, 9-29, 30-95, 96), section alignment {0x2000,0x1000,0x200,0x100,0x80,0x40} x file "
          "alignment {0x200,0x80,0x20,4,1}, SizeOfRawData in {0, one file unit, 1..0x500 rounded or not}, VirtualSize <,=,> SizeOfRawData (incl. 0 and SRD plus more than a "
          "section unit), empty raw data with PointerToRawData 0, raw tail beyond VirtualSize zero padded (7/8) or pattern, optional gap between headers and raw data (file "
@@ -27,8 +38,15 @@ CONFIG = dict(
          "of pe.rs gen_sections (overlapping, unsorted, raw data outside the file, wrapping ranges, sections over the headers), compressed virtual layouts, SizeOfHeaders in "
          "{0,len,header end,random,0x400}, SizeOfImage in {SizeOfHeaders, len, just below the last section end, 0x40, 0x8000, 1 MiB}. 12-36 queries per image at section edges "
          "+-{0,1,2,3,16}: slice(rva,0|1|4|0x20|0x200|2^32,1), derva_c_str, get_section_bytes(i), slice of data directory i - each on PeFile(F) and PeView(to_view F) with the "
-         "number of equal leading bytes. Observed: full bytes (non-zero runs) of to_view and of to_file. Non-trivial: at least one section.",
+         "number of equal leading bytes. Half of the well-formed images with a roomy section carry a structured export directory (1-3 functions, 2 names, ordinals, sometimes AddressOfNames 0), "
+         "an import directory (one descriptor with dll name, thunk array of a hint/name entry and an ordinal entry, usually null-terminated) and a base relocation block, placed mostly inside min(VS,SRD) and "
+         "sometimes running into the raw tail or beyond the stored data; those images (and a quarter of the others) add the queries x (exports().by(): the three tables and Base), i (imports(): descriptor "
+         "fields, dll name bytes, IAT values) and b (base_relocs() bytes), each decoded on PeFile(F) and on PeView(to_view F), compared three ways (model on both, implementation on both, oracle: whatever the "
+         "file decodes the view decodes identically outside raw_tail_not_mapped). Observed: full bytes (non-zero runs) of to_view and of to_file. Non-trivial: at least one section.",
     trusted_base=["Spec/ConvertSpec.v as the reading of the property text"],
     assumptions=["usize is 64 bits; section fields and SizeOfImage are u32; SizeOfImage <= 1 MiB in generated cases (allocation cap; allocation failure is not modelled)"],
-    open_statements=["C06_directory_queries_equal: every directory parser returns equal results on PeFile(F) and PeView(to_view F) - covered only through C06_prefix_simulation, C06_c_str_simulation and by correspondence on slices, section bytes, data-directory slices and C strings"],
+    open_statements=["C06_directory_queries_equal (remaining part): (a) the converse direction view => file, false in general (the view also reads headers, virtual-only zero tails and gaps) - the set of RVAs where it holds is not stated; "
+                     "(b) the resource tree walkers on the two resource sections (C06_resources_section_equal gives equal sections; a frame lemma 'every parser of Model/Resources.v reads below rs_len only' is missing); "
+                     "(c) debug entry payloads (dir_data uses PointerToRawData on a file, AddressOfRawData on a view); (d) Exports name_linear and the iterators, exception unwind_info/function_bytes - thin over the typed reads, not written down; "
+                     "lookups that ignore read errors (name_linear) are not monotone. Proved by theorem: typed reads, exports tables/names/ordinal/name lookups, imports, IAT, base relocations, exception table, debug table, TLS, load config, resource section, Rich, header fields; by correspondence: exports().by(), imports() with dll names and IAT, base_relocs() on both representations"],
 )
